@@ -1,0 +1,520 @@
+// Copyright 2025 Anapaya Systems
+//
+// Licensed under the Apache License, Version 2.0 (the "License");
+// you may not use this file except in compliance with the License.
+// You may obtain a copy of the License at
+//
+//   http://www.apache.org/licenses/LICENSE-2.0
+//
+// Unless required by applicable law or agreed to in writing, software
+// distributed under the License is distributed on an "AS IS" BASIS,
+// WITHOUT WARRANTIES OR CONDITIONS OF ANY KIND, either express or implied.
+// See the License for the specific language governing permissions and
+// limitations under the License.
+
+//! Verification hooks (cargo feature `verif-hooks`, off by default).
+//!
+//! A thin adapter that owns one [`PathSet`] with an injected clock and a scripted path
+//! fetcher, so that an external harness can drive the per-pair worker step by step (exactly the
+//! calls the worker loop in `PathSet::manage` makes) and read the state the worker keeps.
+//!
+//! Nothing in here re-implements manager logic: every step calls the real function.
+
+use std::{
+    collections::VecDeque,
+    sync::{Arc, Mutex},
+    time::{Duration, SystemTime},
+};
+
+use scion_sdk_utils::backoff::BackoffConfig;
+use sciparse::{
+    identifier::isd_asn::IsdAsn,
+    path::{ScionPath, fingerprint::data_plane::DpPathFingerprint},
+    payload::scmp::model::{
+        ScmpErrorMessage, ScmpExternalInterfaceDown, ScmpInternalConnectivityDown,
+    },
+};
+use tokio::sync::broadcast;
+
+use super::{
+    MultiPathManager, MultiPathManagerConfig,
+    issues::{IssueKind, IssueMarker, IssueMarkerTarget, SendError},
+    pathset::{PathSet, PathSetHandle, PathSetTask},
+};
+use crate::path::{
+    PathStrategy,
+    fetcher::traits::{PathFetchError, PathFetcher},
+    policy::PathPolicy,
+    types::Score,
+};
+
+/// All fields of [`MultiPathManagerConfig`], public.
+#[derive(Debug, Clone, Copy)]
+pub struct ProbeConfig {
+    /// see [`MultiPathManagerConfig`]
+    pub max_cached_paths_per_pair: usize,
+    /// see [`MultiPathManagerConfig`]
+    pub refetch_interval: Duration,
+    /// see [`MultiPathManagerConfig`]
+    pub min_refetch_delay: Duration,
+    /// see [`MultiPathManagerConfig`]
+    pub min_expiry_threshold: Duration,
+    /// see [`MultiPathManagerConfig`]
+    pub max_idle_period: Duration,
+    /// see [`MultiPathManagerConfig`]
+    pub fetch_failure_backoff: BackoffConfig,
+    /// see [`MultiPathManagerConfig`]
+    pub issue_cache_size: usize,
+    /// see [`MultiPathManagerConfig`]
+    pub issue_broadcast_size: usize,
+    /// see [`MultiPathManagerConfig`]
+    pub issue_deduplication_window: Duration,
+    /// see [`MultiPathManagerConfig`]
+    pub path_swap_score_threshold: f32,
+}
+
+impl ProbeConfig {
+    /// The values of `MultiPathManagerConfig::default()`.
+    pub fn production_default() -> Self {
+        Self::from_config(MultiPathManagerConfig::default())
+    }
+
+    fn from_config(c: MultiPathManagerConfig) -> Self {
+        ProbeConfig {
+            max_cached_paths_per_pair: c.max_cached_paths_per_pair,
+            refetch_interval: c.refetch_interval,
+            min_refetch_delay: c.min_refetch_delay,
+            min_expiry_threshold: c.min_expiry_threshold,
+            max_idle_period: c.max_idle_period,
+            fetch_failure_backoff: c.fetch_failure_backoff,
+            issue_cache_size: c.issue_cache_size,
+            issue_broadcast_size: c.issue_broadcast_size,
+            issue_deduplication_window: c.issue_deduplication_window,
+            path_swap_score_threshold: c.path_swap_score_threshold,
+        }
+    }
+
+    fn to_config(self) -> MultiPathManagerConfig {
+        MultiPathManagerConfig {
+            max_cached_paths_per_pair: self.max_cached_paths_per_pair,
+            refetch_interval: self.refetch_interval,
+            min_refetch_delay: self.min_refetch_delay,
+            min_expiry_threshold: self.min_expiry_threshold,
+            max_idle_period: self.max_idle_period,
+            fetch_failure_backoff: self.fetch_failure_backoff,
+            issue_cache_size: self.issue_cache_size,
+            issue_broadcast_size: self.issue_broadcast_size,
+            issue_deduplication_window: self.issue_deduplication_window,
+            path_swap_score_threshold: self.path_swap_score_threshold,
+        }
+    }
+}
+
+/// One scripted answer of the path fetcher.
+#[derive(Debug, Clone)]
+pub enum FetchAnswer {
+    /// The lookup succeeds with these paths (possibly none).
+    Paths(Vec<ScionPath>),
+    /// The lookup fails.
+    Error(String),
+}
+
+#[derive(Default)]
+struct Script {
+    answers: VecDeque<FetchAnswer>,
+    requests: usize,
+}
+
+/// Path fetcher answering from a queue; an empty queue answers with an error.
+#[derive(Clone, Default)]
+pub struct ScriptedFetcher(Arc<Mutex<Script>>);
+
+impl PathFetcher for ScriptedFetcher {
+    async fn fetch_paths(
+        &self,
+        _src: IsdAsn,
+        _dst: IsdAsn,
+    ) -> Result<Vec<ScionPath>, PathFetchError> {
+        let mut g = self.0.lock().unwrap();
+        g.requests += 1;
+        match g.answers.pop_front() {
+            Some(FetchAnswer::Paths(p)) => Ok(p),
+            Some(FetchAnswer::Error(e)) => Err(PathFetchError::InternalError(e.into())),
+            None => Err(PathFetchError::InternalError("script exhausted".into())),
+        }
+    }
+}
+
+/// The issue sources of the stack, without their payloads.
+#[derive(Debug, Clone, Copy, PartialEq, Eq)]
+pub enum HookIssue {
+    /// SCMP ExternalInterfaceDown
+    InterfaceDown {
+        /// originating AS
+        isd_asn: IsdAsn,
+        /// failed interface
+        interface_id: u16,
+    },
+    /// SCMP InternalConnectivityDown
+    ConnectivityDown {
+        /// originating AS
+        isd_asn: IsdAsn,
+        /// ingress interface
+        ingress: u16,
+        /// egress interface
+        egress: u16,
+    },
+    /// local send failure towards the first hop
+    FirstHopUnreachable {
+        /// local AS
+        isd_asn: IsdAsn,
+        /// egress interface
+        interface_id: u16,
+    },
+}
+
+impl HookIssue {
+    fn kind(&self) -> IssueKind {
+        match *self {
+            HookIssue::InterfaceDown {
+                isd_asn,
+                interface_id,
+            } => {
+                IssueKind::Scmp {
+                    error: ScmpErrorMessage::ExternalInterfaceDown(ScmpExternalInterfaceDown::new(
+                        isd_asn,
+                        interface_id,
+                        vec![],
+                    )),
+                }
+            }
+            HookIssue::ConnectivityDown {
+                isd_asn,
+                ingress,
+                egress,
+            } => {
+                IssueKind::Scmp {
+                    error: ScmpErrorMessage::InternalConnectivityDown(
+                        ScmpInternalConnectivityDown::new(isd_asn, ingress, egress, vec![]),
+                    ),
+                }
+            }
+            HookIssue::FirstHopUnreachable {
+                isd_asn,
+                interface_id,
+            } => {
+                IssueKind::Socket {
+                    err: SendError::FirstHopUnreachable {
+                        isd_asn,
+                        interface_id,
+                        address: None,
+                        msg: "verif".into(),
+                    },
+                }
+            }
+        }
+    }
+
+    /// `IssueKind::penalty` of this issue.
+    pub fn penalty(&self) -> f32 {
+        self.kind().penalty().value()
+    }
+
+    /// `IssueKind::target_type` then `IssueMarkerTarget::matches_path`; `None` if the issue has
+    /// no target.
+    pub fn matches_path(&self, path: &ScionPath) -> Option<bool> {
+        let target = self.kind().target_type()?;
+        Some(target.matches_path(path, &path.fingerprint()))
+    }
+
+    /// `IssueMarkerTarget::applies_to_path`; `None` if the issue has no target.
+    pub fn applies_to_pair(&self, src: IsdAsn, dst: IsdAsn) -> Option<bool> {
+        Some(self.kind().target_type()?.applies_to_path(src, dst))
+    }
+}
+
+/// One cached entry as seen from outside.
+#[derive(Debug, Clone)]
+pub struct CachedView {
+    /// the cached path
+    pub path: ScionPath,
+    /// reliability score decayed to the query time
+    pub reliability: f32,
+    /// total score (`PathScorer::score`) at the query time
+    pub total: f32,
+}
+
+/// What one `maintain` call did.
+#[derive(Debug, Clone, Copy, PartialEq, Eq)]
+pub struct MaintainOutcome {
+    /// the fetcher was asked
+    pub fetched: bool,
+    /// the worker loop would exit with this reason
+    pub exit: Option<&'static str>,
+}
+
+/// Result class of `MultiPathManager::path`.
+#[derive(Debug, Clone)]
+pub enum PathResult {
+    /// a path
+    Path(ScionPath),
+    /// `PathFetchError::NoPathsFound`
+    NoPathsFound,
+    /// any other error
+    Failed(String),
+}
+
+/// Owns one manager with one hand-driven [`PathSet`].
+pub struct PathSetProbe {
+    mgr: MultiPathManager<ScriptedFetcher>,
+    set: PathSet<ScriptedFetcher>,
+    handle: PathSetHandle,
+    fetcher: ScriptedFetcher,
+    src: IsdAsn,
+    dst: IsdAsn,
+    exited: Option<&'static str>,
+}
+
+impl PathSetProbe {
+    /// Builds the manager through `MultiPathManager::new` (so the config validator runs), with
+    /// the default scorers and the given policies, and one path set created at `now`.
+    ///
+    /// Must be called inside a tokio runtime (a placeholder task stands in for the worker task,
+    /// which the probe replaces by explicit step calls).
+    pub fn new(
+        src: IsdAsn,
+        dst: IsdAsn,
+        config: ProbeConfig,
+        policies: Vec<Arc<dyn PathPolicy>>,
+        now: SystemTime,
+    ) -> Result<Self, String> {
+        let fetcher = ScriptedFetcher::default();
+        let mut strategy = PathStrategy::default();
+        strategy.policies = policies;
+        strategy.scoring.use_default_scorers();
+        let mgr = MultiPathManager::new(config.to_config(), fetcher.clone(), strategy)
+            .map_err(|e| e.to_string())?;
+        let issue_rx = mgr.0.issue_manager.lock().unwrap().issues_subscriber();
+        let set = PathSet::new_with_time(src, dst, mgr.weak_ref(), mgr.0.config, issue_rx, now);
+        let handle = PathSetHandle {
+            shared: set.shared.clone(),
+        };
+        // register the handle so that `cached_path` / `path` find this path set
+        let task = PathSetTask {
+            task: tokio::spawn(async {}),
+            cancel_token: tokio_util::sync::CancellationToken::new(),
+        };
+        if mgr
+            .0
+            .managed_paths
+            .insert_sync((src, dst), (handle.clone(), task))
+            .is_err()
+        {
+            return Err("pair already managed".into());
+        }
+        Ok(PathSetProbe {
+            mgr,
+            set,
+            handle,
+            fetcher,
+            src,
+            dst,
+            exited: None,
+        })
+    }
+
+    /// Appends an answer to the fetcher's script.
+    pub fn push_answer(&self, a: FetchAnswer) {
+        self.fetcher.0.lock().unwrap().answers.push_back(a);
+    }
+
+    /// Drops all scripted answers not yet consumed.
+    pub fn clear_answers(&self) {
+        self.fetcher.0.lock().unwrap().answers.clear();
+    }
+
+    /// Number of lookups the fetcher has answered.
+    pub fn fetch_requests(&self) -> usize {
+        self.fetcher.0.lock().unwrap().requests
+    }
+
+    /// One worker tick at `now`: `PathSet::maintain`.
+    pub async fn maintain(&mut self, now: SystemTime) -> MaintainOutcome {
+        let before = self.fetch_requests();
+        let exit = self.set.maintain(now, &self.mgr).await;
+        if exit.is_some() {
+            self.exited = exit;
+        }
+        MaintainOutcome {
+            fetched: self.fetch_requests() != before,
+            exit,
+        }
+    }
+
+    /// `PathSet::next_maintain`
+    pub fn next_maintain(&self, now: SystemTime) -> Duration {
+        self.set.next_maintain(now)
+    }
+
+    /// `MultiPathManager::report_path_issue` at `now`. Returns whether the issue was broadcast
+    /// (it is not when it has no target or is a duplicate inside the window).
+    pub fn report_issue(&mut self, now: SystemTime, issue: HookIssue) -> bool {
+        let before = self.set.internal.issue_rx.len();
+        self.mgr.report_path_issue(now, issue.kind());
+        self.set.internal.issue_rx.len() != before
+    }
+
+    /// What the worker loop does when its issue channel yields: one `recv` handed to
+    /// `PathSet::handle_issue_rx` at `now`. Returns false if nothing was pending.
+    pub fn deliver_pending(&mut self, now: SystemTime) -> bool {
+        let recv = match self.set.internal.issue_rx.try_recv() {
+            Ok(x) => Ok(x),
+            Err(broadcast::error::TryRecvError::Lagged(n)) => {
+                Err(broadcast::error::RecvError::Lagged(n))
+            }
+            Err(broadcast::error::TryRecvError::Closed) => Err(broadcast::error::RecvError::Closed),
+            Err(broadcast::error::TryRecvError::Empty) => return false,
+        };
+        if let Some(reason) = self.set.handle_issue_rx(now, recv, &self.mgr) {
+            self.exited = Some(reason);
+        }
+        true
+    }
+
+    /// Hands a marker for `issue` (timestamp `now`, explicit penalty) directly to
+    /// `PathSet::handle_issue_rx`, bypassing the issue manager.
+    pub fn handle_issue(&mut self, now: SystemTime, issue: HookIssue, penalty: f32) -> bool {
+        let Some(target) = issue.kind().target_type() else {
+            return false;
+        };
+        let marker = IssueMarker {
+            target,
+            timestamp: now,
+            penalty: Score::new_clamped(penalty),
+        };
+        if let Some(reason) = self.set.handle_issue_rx(now, Ok((0, marker)), &self.mgr) {
+            self.exited = Some(reason);
+        }
+        true
+    }
+
+    /// `MultiPathManager::cached_path`
+    pub fn cached_path(&self, now: SystemTime) -> Option<ScionPath> {
+        self.mgr.cached_path(self.src, self.dst, now)
+    }
+
+    /// `PathSetHandle::try_active_path`
+    pub fn try_active_path(&self) -> Option<ScionPath> {
+        self.handle.try_active_path().as_deref().map(|p| p.0.clone())
+    }
+
+    /// `MultiPathManager::path`. Only call when [`Self::initialized`] (otherwise it waits for a
+    /// worker that does not run).
+    pub async fn path(&self, now: SystemTime) -> PathResult {
+        match self.mgr.path(self.src, self.dst, now).await {
+            Ok(p) => PathResult::Path(p),
+            Err(e) => {
+                match &*e {
+                    PathFetchError::NoPathsFound => PathResult::NoPathsFound,
+                    other => PathResult::Failed(other.to_string()),
+                }
+            }
+        }
+    }
+
+    /// The cached entries in cache order, scored at `now`.
+    pub fn cached(&self, now: SystemTime) -> Vec<CachedView> {
+        self.set
+            .internal
+            .cached_paths
+            .iter()
+            .map(|e| {
+                CachedView {
+                    path: e.path.clone(),
+                    reliability: e.reliability.score(now).value(),
+                    total: self.mgr.0.path_strategy.scoring.score(e, now),
+                }
+            })
+            .collect()
+    }
+
+    /// The active slot (without marking the path set as used).
+    pub fn active(&self) -> Option<(ScionPath, DpPathFingerprint)> {
+        self.set
+            .shared
+            .active_path
+            .load()
+            .as_deref()
+            .map(|p| (p.0.clone(), p.1))
+    }
+
+    /// `PathSetInternal::next_refetch`
+    pub fn next_refetch(&self) -> SystemTime {
+        self.set.internal.next_refetch
+    }
+
+    /// `PathSetInternal::next_idle_check`
+    pub fn next_idle_check(&self) -> SystemTime {
+        self.set.internal.next_idle_check
+    }
+
+    /// `PathSetInternal::failed_attempts`
+    pub fn failed_attempts(&self) -> u32 {
+        self.set.internal.failed_attempts
+    }
+
+    /// `PathSetSharedState::was_used_in_idle_period`
+    pub fn was_used(&self) -> bool {
+        self.set
+            .shared
+            .was_used_in_idle_period
+            .load(std::sync::atomic::Ordering::Relaxed)
+    }
+
+    /// `PathSetSyncState::initialized`
+    pub fn initialized(&self) -> bool {
+        self.set.shared.sync.lock().unwrap().initialized
+    }
+
+    /// class of `PathSetSyncState::current_error`: 0 none, 1 `NoPathsFound`, 2 other
+    pub fn current_error_class(&self) -> u8 {
+        match self.handle.current_error().as_deref() {
+            None => 0,
+            Some(PathFetchError::NoPathsFound) => 1,
+            Some(_) => 2,
+        }
+    }
+
+    /// Issues broadcast but not yet received by the path set.
+    pub fn pending_issues(&self) -> usize {
+        self.set.internal.issue_rx.len()
+    }
+
+    /// `(cache.len(), fifo_issues.len(), max_entries)` of the issue manager.
+    pub fn issue_sizes(&self) -> (usize, usize, usize) {
+        let g = self.mgr.0.issue_manager.lock().unwrap();
+        (g.cache.len(), g.fifo_issues.len(), g.max_entries)
+    }
+
+    /// Reason with which the worker loop would have exited, if any.
+    pub fn exited(&self) -> Option<&'static str> {
+        self.exited
+    }
+}
+
+/// `IssueMarkerTarget` of an issue, flattened: `(kind, isd_asn, ingress filter, egress)` with kind
+/// 1 = Interface, 2 = FirstHop; `None` when the issue has no target the manager handles.
+pub fn issue_target(issue: &HookIssue) -> Option<(u8, IsdAsn, Option<u16>, u16)> {
+    match issue.kind().target_type()? {
+        IssueMarkerTarget::Interface {
+            isd_asn,
+            ingress_filter,
+            egress_filter,
+        } => Some((1, isd_asn, ingress_filter, egress_filter)),
+        IssueMarkerTarget::FirstHop {
+            isd_asn,
+            egress_interface,
+        } => Some((2, isd_asn, None, egress_interface)),
+        _ => None,
+    }
+}
